@@ -249,6 +249,8 @@ type lifeClient struct {
 	parked    bool
 	closedBy  bool // the scenario closed it from the client side
 	recv      int
+	stream    []byte // bytes read and not yet parsed into whole LDAPMessages
+	frames    int    // whole LDAPMessages received
 	cond      *sync.Cond
 }
 
@@ -267,6 +269,15 @@ func (c *lifeClient) reader() {
 		n, err := r.Read(buf)
 		c.mu.Lock()
 		c.recv += n
+		c.stream = append(c.stream, buf[:n]...)
+		for {
+			_, rest, ok := parseNode(c.stream)
+			if !ok {
+				break
+			}
+			c.frames++
+			c.stream = append([]byte{}, rest...)
+		}
 		if err != nil {
 			if ne, ok := err.(net.Error); ok && ne.Timeout() && !c.closedBy {
 				// kicked out of the read to make room for a handshake (or a stall)
@@ -325,6 +336,36 @@ func (lr *lifeRun) execOp(t *Toks) error {
 		lc.cond = sync.NewCond(&lc.mu)
 		lr.clients = append(lr.clients, lc)
 		go lc.reader()
+	case "sendclose":
+		// the client writes its requests and closes at once: request and EOF are both
+		// in the server's receive buffer before the read loop has looked at either
+		ci, _ := strconv.Atoi(t.rest[0])
+		t.rest = append([]string{"send"}, t.rest...)
+		if err := lr.execOp(t); err != nil {
+			return err
+		}
+		if ci < len(lr.clients) {
+			lc := lr.clients[ci]
+			lc.mu.Lock()
+			lc.closedBy = true
+			lc.cond.Broadcast()
+			lc.mu.Unlock()
+			_ = lc.raw.Close()
+		}
+	case "reset":
+		// abrupt disconnect: RST instead of FIN
+		ci := t.Int()
+		if ci < len(lr.clients) {
+			lc := lr.clients[ci]
+			lc.mu.Lock()
+			lc.closedBy = true
+			lc.cond.Broadcast()
+			lc.mu.Unlock()
+			if tc, ok := lc.raw.(*net.TCPConn); ok {
+				_ = tc.SetLinger(0)
+			}
+			_ = lc.raw.Close()
+		}
 	case "accepterr":
 		// descriptor exhaustion at accept time: with the limit lowered, a client connects
 		// (the kernel completes the handshake, accept(2) fails with EMFILE); the limit is
@@ -521,9 +562,10 @@ func (lr *lifeRun) realSnapshot(probePort bool, modelPort string) string {
 		if lc.closedBy || lc.stalled {
 			closed = "x"
 		}
+		rx := lc.frames
 		lc.mu.Unlock()
-		parts = append(parts, fmt.Sprintf("c%d:id=%d,started=[%s],ended=[%s],closed=%s,onclose=%d", i, cid,
-			strings.Join(st.started, ";"), strings.Join(es, ";"), closed, st.onclose))
+		parts = append(parts, fmt.Sprintf("c%d:id=%d,started=[%s],ended=[%s],closed=%s,onclose=%d,rx=%d", i, cid,
+			strings.Join(st.started, ";"), strings.Join(es, ";"), closed, st.onclose, rx))
 	}
 	return strings.TrimSpace(fmt.Sprintf("alive=%s ready=%s run=%s stops=%d/%d port=%s %s", alive, ready, run, stopsRet,
 		stopsCalled, port, strings.Join(parts, " ")))
@@ -534,6 +576,12 @@ func normaliseSnap(s string, lr *lifeRun) string {
 	f := strings.Fields(s)
 	for i, p := range f {
 		if strings.HasPrefix(p, "c") && strings.Contains(p, ":id=") {
+			// the number of frames the client received is not predicted by the model
+			// (it is judged by the spec predicate): not part of the comparison
+			if j := strings.Index(p, ",rx="); j >= 0 {
+				p = p[:j]
+				f[i] = p
+			}
 			idx, _ := strconv.Atoi(p[1:strings.Index(p, ":")])
 			if idx < len(lr.clients) {
 				lr.clients[idx].mu.Lock()
@@ -575,7 +623,7 @@ func runLife(t *Toks) string {
 		switch p[0] {
 		case "recovery", "onclose", "unbind":
 			opts = append(opts, kv)
-		case "tls", "addr", "readtimeout":
+		case "tls", "addr", "readtimeout", "dflt":
 			opts = append(opts, kv)
 		case "race":
 			race = p[1] == "1"
